@@ -90,6 +90,7 @@ def _mk_file(ctx, ai, tracks_spec, tpb=None, type_=1):
                 m = wire.make_meta(ai, ctx, 'end_of_track', {}, t)
             msgs.append(m)
         tracks.append(AList(msgs, 'MidiTrack'))
+        tracks[-1].cls = ctx.p.cls('mido.midifiles.tracks', 'MidiTrack')
     from ..fold import ClassRef
     return ai.apply(ClassRef(cls), [], {'type': type_, 'ticks_per_beat': tpb if tpb is not None else 480, 'tracks': AList(tracks, 'list')}, None)
 
@@ -327,4 +328,51 @@ def r16_attribute_edit(ctx):
     ctx.borrow(c03.r03_3_setattr, 'R16.9')
 
 
-RULES = [('R16.9', r16_attribute_edit), ('R16.8', r16_refused_edit), ('R16.7', r16_merge), ('R16.6', r16_6), ('R16.1', r16_1), ('R16.2', r16_2), ('R16.3', r16_3), ('R16.4', r16_4), ('R16.5', r16_5)]
+_HANDLES = {
+    'a name for tracks[0]': ('t = mf.tracks[0]\n{edit}', 0, 2),
+    'the track add_track() returned': ('t = mf.add_track()\nt.append(m0)\n{edit}', 1, 1),
+    'the loop variable of "for t in mf.tracks"': ('for t in mf.tracks:\n    {edit}', 0, 2),
+}
+
+
+def r16_inplace(ctx):
+    """Editing a track's messages with the list operators that edit in place - "track += messages", "track *= n" - edits the
+    track that is in the file, through whatever name the caller holds it by (the track add_track() returned, a loop variable):
+    the operator acts on the object and hands the same object back.  A MidiTrack whose operator builds a new track instead
+    re-binds the caller's name and leaves the file as it was."""
+    ai = smf.make_interp(ctx)
+    cls = ctx.p.cls(MF, 'MidiFile')
+    tcls = ctx.p.cls('mido.midifiles.tracks', 'MidiTrack')
+    w = f'{tcls.module.relpath}:{tcls.node.lineno} MidiTrack'
+    n = 0
+    for op, edit, grow in (('+=', 't += [m]', lambda k: k + 1), ('*=', 't *= 2', lambda k: 2 * k)):
+        for hname, (code, idx, before) in _HANDLES.items():
+            n += 1
+            holder = {}
+
+            def thunk():
+                mf = _mk_file(ctx, ai, [[('n', 10, 1), ('n', 5, 2)]])
+                m = wire.make_message(ctx, 'note_on', {'channel': 0, 'note': 3, 'velocity': 64}, 20)
+                m0 = wire.make_message(ctx, 'note_on', {'channel': 0, 'note': 4, 'velocity': 64}, 30)
+                env = {'mf': mf, 'm': m, 'm0': m0}
+                holder['mf'] = mf
+                ai.ex_block(ast.parse(code.format(edit=edit)).body, env, cls.module)
+                return env.get('t')
+            outs = ai.explore(thunk)
+            inst = f'{edit} through {hname}'
+            cons = f'{tcls.qname}::in-place({op})'
+            if len(outs) != 1 or outs[0].kind != 'return':
+                ctx.fail('R16.10', inst, w, f'the edit does not complete on one path: {outs}', construct=cons)
+                continue
+            tr = holder['mf'].attrs['tracks'].items[idx]
+            got = len(tr.items) if isinstance(tr, AList) and not tr.has_var() else None
+            ctx.require(outs[0].value is tr and got == grow(before), 'R16.10', inst, w,
+                        f'after "{edit}" the track in the file has {got} messages, {grow(before)} expected'
+                        f'{"" if outs[0].value is tr else "; the name is re-bound to a new track and the one in the file is left as it was"}: '
+                        f'MidiTrack {op} does not edit the track in place', construct=cons)
+    ctx.floor('R16.10', n, 6)
+    for q in ai.inlined:
+        ctx.functions.add(q)
+
+
+RULES = [('R16.10', r16_inplace), ('R16.9', r16_attribute_edit), ('R16.8', r16_refused_edit), ('R16.7', r16_merge), ('R16.6', r16_6), ('R16.1', r16_1), ('R16.2', r16_2), ('R16.3', r16_3), ('R16.4', r16_4), ('R16.5', r16_5)]
